@@ -46,7 +46,7 @@ func c02Fold(out []outEnvelope, id string) (state interface{}, n int) {
 // c02Write performs one data change followed by the invalidation of everything
 // that depends on the data.
 func c02Write(w *kWorld, name string) {
-	switch nondet.Choice(name+".op", 5) {
+	switch nondet.Choice(name+".op", 6) {
 	case 0:
 		w.version = nondet.Int64(name + ".version")
 	case 1:
@@ -59,6 +59,8 @@ func c02Write(w *kWorld, name string) {
 		}
 	case 3:
 		w.items = append(append([]*xItem{}, w.items...), &xItem{ID: 7, V: nondet.Int64(name + ".newv")})
+	case 5:
+		w.items = []*xItem{}
 	case 4:
 		if len(w.items) >= 1 {
 			// a changed object is a new object (resolvers hold on to the old one)
